@@ -47,8 +47,17 @@ class AbstractConstraint(object):
         representation = '%s object' % (self.__class__.__name__)
 
         if self._values:
-            representation += ', consts %s' % ', '.join(
-                [repr(x) for x in self._values])
+            consts = []
+
+            for x in self._values:
+                try:
+                    consts.append(repr(x))
+
+                except ValueError:
+                    # an integer with more digits than Python agrees to print
+                    consts.append('<value too large to print>')
+
+            representation += ', consts %s' % ', '.join(consts)
 
         return '<%s>' % representation
 
